@@ -153,6 +153,10 @@ DefaultQ == CHOOSE k \in QKeys : TRUE
 (* an idle request carries no residue (keeps the state space canonical) *)
 Idle(f, r, v) == [f EXCEPT ![r] = v]
 
+(* the action's request id / outcome / zone argument, uniformly typed (TLC compares
+   whole states in simulation mode) *)
+A(r, o, z) == [r |-> r, o |-> o, z |-> z]
+NoA == A(0, "-", -1)
 MkLast(op, a, k, r, n, down, res) ==
   [op |-> op, a |-> a, k |-> k, hit |-> r.hit, kind |-> r.kind, src |-> r.src,
    streak |-> r.streak, rel |-> r.rel, n |-> n, down |-> down, res |-> res]
@@ -165,7 +169,7 @@ Init ==
   /\ gk = [r \in Reqs |-> <<"-">>]
   /\ rg = [r \in Reqs |-> 0]
   /\ ld = [r \in Reqs |-> FALSE]
-  /\ last = MkLast("Init", <<>>, <<>>, Miss, 0, FALSE, "-")
+  /\ last = MkLast("Init", NoA, <<>>, Miss, 0, FALSE, "-")
 
 (* ------------------------------ API actions ---------------------------- *)
 (* With Enabled = FALSE the actions are the Store-level calls, which the
@@ -174,36 +178,36 @@ RecordQuestion(k, cause) ==
   /\ ApiOps /\ (fq[k] # None \/ Live < MaxLive)
   /\ IF Enabled
        THEN /\ \E S \in RecQSet(fq, fz, k, cause) : fq' = S.q /\ fz' = S.z
-            /\ last' = MkLast("RecordQuestion", <<k, cause>>, k, HitOf("q", k, RecordEntry(fq[k], cause)), 0, FALSE, "-")
+            /\ last' = MkLast("RecordQuestion", NoA, k, HitOf("q", k, RecordEntry(fq[k], cause)), 0, FALSE, "-")
        ELSE /\ UNCHANGED store
-            /\ last' = MkLast("RecordQuestion", <<k, cause>>, k, Miss, 0, FALSE, "-")
+            /\ last' = MkLast("RecordQuestion", NoA, k, Miss, 0, FALSE, "-")
   /\ UNCHANGED reqv
 
 RecordZone(zk, cause) ==
   /\ ApiOps /\ (fz[zk] # None \/ Live < MaxLive)
   /\ IF Enabled
        THEN /\ \E S \in RecZSet(fq, fz, zk, cause) : fq' = S.q /\ fz' = S.z
-            /\ last' = MkLast("RecordZone", <<zk, cause>>, <<>>, HitOf("z", zk, RecordEntry(fz[zk], cause)), 0, FALSE, "-")
+            /\ last' = MkLast("RecordZone", NoA, <<>>, HitOf("z", zk, RecordEntry(fz[zk], cause)), 0, FALSE, "-")
        ELSE /\ UNCHANGED store
-            /\ last' = MkLast("RecordZone", <<zk, cause>>, <<>>, Miss, 0, FALSE, "-")
+            /\ last' = MkLast("RecordZone", NoA, <<>>, Miss, 0, FALSE, "-")
   /\ UNCHANGED reqv
 
 Lookup(k) ==
   /\ ApiOps
-  /\ last' = MkLast("Lookup", <<k>>, k, IF Enabled THEN LookupIn(fq, fz, k) ELSE Miss, 0, FALSE, "-")
+  /\ last' = MkLast("Lookup", NoA, k, IF Enabled THEN LookupIn(fq, fz, k) ELSE Miss, 0, FALSE, "-")
   /\ UNCHANGED <<store, reqv>>
 
 (* LookupWire: wire-born question, no ECS scope: verdict of Lookup on the shared audience *)
 LookupWire(n, t, c, cd) ==
   /\ ApiOps /\ 0 \in Scopes
   /\ LET k == <<n, t, c, cd, 0>> IN
-     last' = MkLast("LookupWire", <<n, t, c, cd>>, k, IF Enabled THEN LookupIn(fq, fz, k) ELSE Miss, 0, FALSE, "-")
+     last' = MkLast("LookupWire", NoA, k, IF Enabled THEN LookupIn(fq, fz, k) ELSE Miss, 0, FALSE, "-")
   /\ UNCHANGED <<store, reqv>>
 
 RetryKey(k) ==
   /\ ApiOps
   /\ LET rk == IF Enabled THEN RetryKeyIn(fq, fz, k) ELSE NoKey IN
-     last' = MkLast("RetryKey", <<k>>, k, [Miss EXCEPT !.hit = (rk # NoKey),
+     last' = MkLast("RetryKey", NoA, k, [Miss EXCEPT !.hit = (rk # NoKey),
                                                        !.kind = IF rk = NoKey THEN "-" ELSE rk[1],
                                                        !.src = IF rk = NoKey THEN <<>> ELSE rk[2]], 0, FALSE, "-")
   /\ UNCHANGED <<store, reqv>>
@@ -211,19 +215,19 @@ RetryKey(k) ==
 ResetQuestion(k) ==
   /\ ApiOps /\ Enabled
   /\ fq' = [fq EXCEPT ![k] = None] /\ UNCHANGED fz
-  /\ last' = MkLast("ResetQuestion", <<k>>, k, Miss, IF fq[k] # None THEN 1 ELSE 0, FALSE, "-")
+  /\ last' = MkLast("ResetQuestion", NoA, k, Miss, IF fq[k] # None THEN 1 ELSE 0, FALSE, "-")
   /\ UNCHANGED reqv
 
 ResetZone(zk) ==
   /\ ApiOps /\ Enabled
   /\ fz' = [fz EXCEPT ![zk] = None] /\ UNCHANGED fq
-  /\ last' = MkLast("ResetZone", <<zk>>, <<>>, Miss, IF fz[zk] # None THEN 1 ELSE 0, FALSE, "-")
+  /\ last' = MkLast("ResetZone", NoA, <<>>, Miss, IF fz[zk] # None THEN 1 ELSE 0, FALSE, "-")
   /\ UNCHANGED reqv
 
 ResetMatching(k) ==
   /\ ApiOps /\ Enabled
   /\ LET S == ResetMatchingIn(fq, fz, k) IN fq' = S.q /\ fz' = S.z
-  /\ last' = MkLast("ResetMatching", <<k>>, k, Miss, ResetMatchingCount(fq, fz, k), FALSE, "-")
+  /\ last' = MkLast("ResetMatching", NoA, k, Miss, ResetMatchingCount(fq, fz, k), FALSE, "-")
   /\ UNCHANGED reqv
 
 (* PurgeQuestion: every CD / ECS variant of the question and the zone state owned by the name *)
@@ -231,7 +235,7 @@ Purge(n, t, c) ==
   /\ ApiOps /\ Enabled
   /\ fq' = [x \in QKeys |-> IF x[1] = n /\ x[2] = t /\ x[3] = c THEN None ELSE fq[x]]
   /\ fz' = [x \in ZKeys |-> IF x = <<n, c>> THEN None ELSE fz[x]]
-  /\ last' = MkLast("Purge", <<n, t, c>>, <<>>, Miss,
+  /\ last' = MkLast("Purge", NoA, <<>>, Miss,
                     Cardinality({x \in QKeys : x[1] = n /\ x[2] = t /\ x[3] = c /\ fq[x] # None})
                     + Cardinality({x \in ZKeys : x = <<n, c>> /\ fz[x] # None}), FALSE, "-")
   /\ UNCHANGED reqv
@@ -241,7 +245,7 @@ Tick(d) ==
   /\ Quiet /\ Live > 0
   /\ fq' = [k \in QKeys |-> Age(fq[k], d)]
   /\ fz' = [k \in ZKeys |-> Age(fz[k], d)]
-  /\ last' = MkLast("Tick", <<d>>, <<>>, Miss, d, FALSE, "-")
+  /\ last' = MkLast("Tick", NoA, <<>>, Miss, d, FALSE, "-")
   /\ UNCHANGED reqv
 
 (* --------------------------- request level ----------------------------- *)
@@ -276,9 +280,9 @@ Request(k, o, z) ==
   /\ LET lk == LookupIn(fq, fz, k) IN
      IF Enabled /\ lk.hit
        THEN /\ UNCHANGED store
-            /\ last' = MkLast("Request", <<k, o, z>>, k, lk, 0, FALSE, "hit")
+            /\ last' = MkLast("Request", A(0, o, z), k, lk, 0, FALSE, "hit")
        ELSE /\ \E S \in ReqEffectSet(fq, fz, k, o, z) : fq' = S.q /\ fz' = S.z
-            /\ last' = MkLast("Request", <<k, o, z>>, k, Miss, 0, TRUE, ResOf(o))
+            /\ last' = MkLast("Request", A(0, o, z), k, Miss, 0, TRUE, ResOf(o))
   /\ UNCHANGED reqv
 
 Leading(key, self) == \E r \in Reqs \ {self} : pc[r] = "down" /\ ld[r] /\ gk[r] = key
@@ -287,7 +291,7 @@ Begin(r, k) ==
   /\ pc[r] = "idle"
   /\ LET lk == LookupIn(fq, fz, k) IN
      IF Enabled /\ lk.hit
-       THEN /\ last' = MkLast("Begin", <<r, k>>, k, lk, 0, FALSE, "hit")
+       THEN /\ last' = MkLast("Begin", A(r, "-", -1), k, lk, 0, FALSE, "hit")
             /\ UNCHANGED reqv
        ELSE LET rk  == IF Enabled THEN RetryKeyIn(fq, fz, k) ELSE NoKey
                 key == IF rk # NoKey THEN <<"p", rk>> ELSE <<"d", k>>
@@ -297,7 +301,7 @@ Begin(r, k) ==
                /\ gk' = [gk EXCEPT ![r] = key]
                /\ rg' = [rg EXCEPT ![r] = 0]
                /\ ld' = [ld EXCEPT ![r] = ~fol]
-               /\ last' = MkLast("Begin", <<r, k>>, k, Miss, 0, ~fol, IF fol THEN "wait" ELSE "down")
+               /\ last' = MkLast("Begin", A(r, "-", -1), k, Miss, 0, ~fol, IF fol THEN "wait" ELSE "down")
   /\ UNCHANGED store
 
 Finish(r, o, z) ==
@@ -308,7 +312,7 @@ Finish(r, o, z) ==
                            ELSE pc[x]]
   /\ ld' = [ld EXCEPT ![r] = FALSE]
   /\ rq' = Idle(rq, r, DefaultQ) /\ gk' = Idle(gk, r, <<"-">>) /\ rg' = Idle(rg, r, 0)
-  /\ last' = MkLast("Finish", <<r, rq[r], o, z>>, rq[r], Miss, 0, TRUE, ResOf(o))
+  /\ last' = MkLast("Finish", A(r, o, z), rq[r], Miss, 0, TRUE, ResOf(o))
 
 (* a follower released by its leader: re-check, then regroup once, then shed *)
 Wake(r) ==
@@ -316,7 +320,7 @@ Wake(r) ==
   /\ LET k == rq[r] lk == LookupIn(fq, fz, k) IN
      IF Enabled /\ lk.hit
        THEN /\ pc' = [pc EXCEPT ![r] = "idle"]
-            /\ last' = MkLast("Wake", <<r>>, k, lk, 0, FALSE, "hit")
+            /\ last' = MkLast("Wake", A(r, "-", -1), k, lk, 0, FALSE, "hit")
             /\ rq' = Idle(rq, r, DefaultQ) /\ gk' = Idle(gk, r, <<"-">>) /\ rg' = Idle(rg, r, 0)
             /\ UNCHANGED ld
        ELSE LET rk == IF Enabled THEN RetryKeyIn(fq, fz, k) ELSE NoKey IN
@@ -324,11 +328,11 @@ Wake(r) ==
               THEN /\ pc' = [pc EXCEPT ![r] = "down"]     \* outcome known, nothing left to probe: own resolution
                    /\ ld' = [ld EXCEPT ![r] = FALSE]
                    /\ gk' = [gk EXCEPT ![r] = <<"d", k>>]
-                   /\ last' = MkLast("Wake", <<r>>, k, Miss, 0, TRUE, "down")
+                   /\ last' = MkLast("Wake", A(r, "-", -1), k, Miss, 0, TRUE, "down")
                    /\ UNCHANGED <<rq, rg>>
               ELSE IF rg[r] >= 1
                 THEN /\ pc' = [pc EXCEPT ![r] = "idle"]   \* writeFailureProbeLimit
-                     /\ last' = MkLast("Wake", <<r>>, k, Miss, 0, FALSE, "shed")
+                     /\ last' = MkLast("Wake", A(r, "-", -1), k, Miss, 0, FALSE, "shed")
                      /\ rq' = Idle(rq, r, DefaultQ) /\ gk' = Idle(gk, r, <<"-">>) /\ rg' = Idle(rg, r, 0)
                      /\ UNCHANGED ld
                 ELSE LET key == <<"p", rk>> fol == Leading(key, r) IN
@@ -336,7 +340,7 @@ Wake(r) ==
                      /\ gk' = [gk EXCEPT ![r] = key]
                      /\ rg' = [rg EXCEPT ![r] = 1]
                      /\ ld' = [ld EXCEPT ![r] = ~fol]
-                     /\ last' = MkLast("Wake", <<r>>, k, Miss, 0, ~fol, IF fol THEN "wait" ELSE "down")
+                     /\ last' = MkLast("Wake", A(r, "-", -1), k, Miss, 0, ~fol, IF fol THEN "wait" ELSE "down")
                      /\ UNCHANGED rq
   /\ UNCHANGED store
 
@@ -399,7 +403,7 @@ EnvelopeStepProp ==
    whose every server failed *)
 OnlyWhatFailed ==
   [][(last'.op \in {"Request", "Finish"}) =>
-       LET k == last'.k  o == last'.a[Len(last'.a) - 1]  z == last'.a[Len(last'.a)] IN
+       LET k == last'.k  o == last'.a.o  z == last'.a.z IN
        /\ \A x \in QKeys : NewGen(fq[x], fq'[x]) => (x = k /\ o \in {"servfail", "authfail"})
        /\ \A x \in ZKeys : NewGen(fz[x], fz'[x]) => (o = "authfail" /\ x = <<z, k[3]>>)]_vars
 
@@ -424,7 +428,7 @@ SingleProbe ==
 (* ... and the others wait or are shed, they never go downstream as probes *)
 ProbeFollowersWait ==
   [][(last'.op \in {"Begin", "Wake"} /\ last'.down) =>
-       LET r == last'.a[1] IN gk'[r][1] = "p" => ~Leading(gk'[r], r)]_vars
+       LET r == last'.a.r IN gk'[r][1] = "p" => ~Leading(gk'[r], r)]_vars
 
 SuccessResets ==
   [][((last'.op \in {"Request", "Finish"} /\ last'.res = "useful" /\ Enabled)
